@@ -280,12 +280,43 @@ impl Number {
             .ok_or_else(|| {
                 JsNativeError::range()
                     .with_message("toFixed() digits argument must be between 0 and 100")
-            })? as u8;
+            })? as usize;
 
-        let mut buffer = ryu_js::Buffer::new();
-        let string = buffer.format_to_fixed(this_num, precision);
+        // 6. If x is not finite, return Number::toString(x, 10).
+        // 9. If x ≥ 10^21, then let m be ! ToString(𝔽(x)).
+        if !this_num.is_finite() || this_num.abs() >= 1e21 {
+            return Ok(JsValue::new(JsString::from(this_num)));
+        }
 
-        Ok(js_string!(string).into())
+        // 10. Else, let n be an integer for which n / 10^f - x is as close to zero as possible.
+        //     If there are two such n, pick the larger n.
+        // `digits` holds the decimal digits of x, `point` of them before the decimal point.
+        // The leading zero receives the carry of the rounding.
+        let mut digits = String::from("0");
+        let mut point = 1;
+        if this_num != 0.0 {
+            let (exact_digits, exponent) = f64_exact_digits(this_num.abs());
+            if exponent < 0 {
+                digits.push_str(&"0".repeat(-exponent as usize - 1));
+            } else {
+                point += exponent as usize + 1;
+            }
+            digits.push_str(&exact_digits);
+        }
+        Self::round_to_precision(&mut digits, point + precision);
+        if point > 1 && digits.starts_with('0') {
+            digits.remove(0);
+            point -= 1;
+        }
+        if precision > 0 {
+            digits.insert(point, '.');
+        }
+        // 8. If x < 0, then set s to "-" and x to -x.
+        if this_num < 0.0 {
+            digits.insert(0, '-');
+        }
+
+        Ok(js_string!(digits).into())
     }
 
     /// `Number.prototype.toLocaleString( [locales [, options]] )`
